@@ -19,7 +19,7 @@ from vlib import hexs
 from checks import c09 as gen9
 import uper_streams
 import consts_stream
-from checks import c16
+from checks import c12, c16
 
 I64_MIN = -(2 ** 63)
 I64_MAX = 2 ** 63 - 1
@@ -532,7 +532,7 @@ class Spec(runner.Spec):
     prop = "C08"
     # Props/C08Consts.lean: the descriptor constants of the macro expansion, from the source type
     extra_prop_files = ["C08Consts"]
-    streams = [AttrStream(), uper_streams.DescConsistency(), consts_stream.ConstsFromSource(), c16.TagsCorpus()]
+    streams = [AttrStream(), uper_streams.DescConsistency(), consts_stream.ConstsFromSource(), c16.TagsCorpus(), c12.ResolveWitnesses()]
     assumptions = [
         "text -> token tree is proc_macro2's lexer (trusted, checked by `attr print`: the real text is lexed by proc_macro2 and compared token by token with the model printer)",
         "only the attribute language of struct fields / tuple structs / CHOICE variants is modelled (type, tag, const); the definition header (`sequence`, `choice`, tag, extensible_after) and `Model<Rust>` <-> `asn::Type` conversion (`into_asn`, `convert_asn_to_rust`) are exercised by `attr reparse` on the real code only",
